@@ -110,6 +110,10 @@ def out_of_domain_values(rng, row):
     for n in (0, 1, 2, 3, 4, 5, 6, 7, 8, 9, 16, 18):
         b = bytes(rng.randrange(256) for _ in range(n))
         vals.append((b, ["B", b.hex() or "-"]))
+    for fam in (b"\x00\x01", b"\x00\x02", b"\x00\x03", b"\x00\x00", b"\x01\x01"):
+        for n in (0, 3, 4, 5, 15, 16, 17):          # every family against every width (right one, the other family's, off by one)
+            b = fam + bytes(rng.randrange(256) for _ in range(n))
+            vals.append((b, ["B", b.hex()]))
     for b in (b"\x00\x01\x0a\x00\x00\x01", b"\x00\x02" + bytes(16), b"\x00\x03\x0a\x00\x00\x01", b"\x00\x01\x0a", b"\x00\x00\x00\x01", b"\x00\x00\x00\x63"):
         vals.append((b, ["B", b.hex()]))
     out = []
@@ -214,6 +218,57 @@ def explore_grouped(chk, g, rows, tag):
             chk.violation("Grouped AVP with all mandatory members rejected or mis-encoded", inp, f["spec"], impl)
 
 
+def late_registration(chk):
+    """'... and any added later': a dictionary class defined after the decoder has already been used must be
+    dispatched to as well (for an existing vendor, for no vendor, and for a new vendor)"""
+    from bromelia.base import DiameterAVP
+    from bromelia.types import OctetStringType, Unsigned32Type
+    DiameterAVP.load(bytes.fromhex("0000010840000010686f73742e657861"))      # the decoder has been used
+
+    def check(cls, wire):
+        inp = {"op": "late-registration", "class": cls.__name__, "wire": wire}
+        chk.case(inp, kind="late-registration")
+        kind, back = guarded(lambda: DiameterAVP.load(bytes.fromhex(wire)))
+        got = [type(b).__name__ for b in back] if kind == "ok" else "%s:%s" % (kind, back)
+        if got != [cls.__name__]:
+            chk.corr_break("late-registration", inp, got, [cls.__name__])
+            chk.violation("a dictionary class added after the first decode is not dispatched to", inp, [cls.__name__], got)
+
+    # each class is decoded right after its definition (a later definition must not be what makes it visible)
+    class VerifLateOneAVP(DiameterAVP, OctetStringType):
+        code = (61001).to_bytes(4, "big")
+        vendor_id = None
+
+        def __init__(self, data):
+            DiameterAVP.__init__(self, VerifLateOneAVP.code)
+            OctetStringType.__init__(self, data=data)
+
+    check(VerifLateOneAVP, "0000ee490000000b616263" + "00")
+
+    class VerifLateTwoAVP(DiameterAVP, Unsigned32Type):
+        code = (61002).to_bytes(4, "big")
+        vendor_id = (10415).to_bytes(4, "big")
+
+        def __init__(self, data):
+            DiameterAVP.__init__(self, VerifLateTwoAVP.code, VerifLateTwoAVP.vendor_id)
+            DiameterAVP.set_vendor_id_bit(self, True)
+            Unsigned32Type.__init__(self, data=data, vendor_id=VerifLateTwoAVP.vendor_id)
+
+    check(VerifLateTwoAVP, "0000ee4a80000010000028af00000007")
+
+    class VerifLateThreeAVP(DiameterAVP, OctetStringType):
+        code = (61003).to_bytes(4, "big")
+        vendor_id = (424242).to_bytes(4, "big")
+
+        def __init__(self, data):
+            DiameterAVP.__init__(self, VerifLateThreeAVP.code, VerifLateThreeAVP.vendor_id)
+            DiameterAVP.set_vendor_id_bit(self, True)
+            OctetStringType.__init__(self, data=data, vendor_id=VerifLateThreeAVP.vendor_id)
+
+    check(VerifLateThreeAVP, "0000ee4b8000000e00067932" + "7879" + "0000")
+    check(VerifLateOneAVP, "0000ee490000000b616263" + "00")
+
+
 def run(chk):
     rng = random.Random(chk.seed)
     changed, rows = gen_dict.generate()
@@ -231,6 +286,7 @@ def run(chk):
     table_facts(chk, rows, g)
     explore_constructors(chk, g, rows, 6 if chk.tier == "quick" else 400, "sweep")
     explore_grouped(chk, g, rows, "sweep")
+    late_registration(chk)          # last: it adds classes to this process
     chk.extra["classes"] = len(rows)
 
     def search():
